@@ -115,7 +115,7 @@ pub proof fn lemma_ii_gcd_step(a: nat, b: nat)
 pub open spec fn ii_bezout_bounds(a: int, b: int, g: int, x: int, y: int) -> bool {
     &&& a == 0 ==> x == 0 && y == 1 && g == b
     &&& a > 0 && b % a == 0 ==> x == 1 && y == 0 && g == a
-    &&& a > 0 && b % a != 0 ==> iabs(x) * g <= b && iabs(y) * g <= a && g > 0
+    &&& a > 0 && b % a != 0 ==> 2 * (iabs(x) * g) <= b && 2 * (iabs(y) * g) <= a && g > 0
 }
 
 pub proof fn lemma_ii_egcd_step(a: int, b: int, g: int, x1: int, y1: int)
@@ -145,19 +145,26 @@ pub proof fn lemma_ii_egcd_step(a: int, b: int, g: int, x1: int, y1: int)
     if r == 0 {
         assert(q * x1 == 0) by (nonlinear_arith) requires x1 == 0;
     } else if a % r == 0 {
-        // x1 == 1, y1 == 0, g == r
+        // x1 == 1, y1 == 0, g == r; r | a and r < a, hence a >= 2r
         assert(g == r) by (nonlinear_arith) requires g == x1 * r + y1 * a, x1 == 1, y1 == 0;
         assert(q * x1 == q) by (nonlinear_arith) requires x1 == 1;
-        assert(q * r <= b) by (nonlinear_arith) requires b == a * q + r, 0 < r < a, q >= 0;
+        lemma_div_pos(a, r);
+        assert(a >= 2 * r) by (nonlinear_arith) requires a == r * (a / r), r < a, r > 0, a / r >= 0;
+        assert(2 * (q * r) + r <= b) by (nonlinear_arith) requires b == a * q + r, a >= 2 * r, r > 0, q >= 0;
         assert(iabs(x) * g == q * r);
+        assert(iabs(x1) * g == r) by (nonlinear_arith) requires x1 == 1, g == r;
     } else {
         let (ax, ay) = (iabs(x1), iabs(y1));
-        assert(ax <= a && ay <= a) by (nonlinear_arith) requires ax * g <= a, ay * g <= r, r < a, g >= 1, ax >= 0, ay >= 0;
+        let (gx, gy) = (ax * g, ay * g);
+        assert(ax <= a && ay <= a) by (nonlinear_arith) requires 2 * (ax * g) <= a, 2 * (ay * g) <= r, r < a, g >= 1, ax >= 0, ay >= 0;
         assert(iabs(q * x1) == q * ax) by (nonlinear_arith) requires q >= 0, ax == iabs(x1);
-        assert(q * ax <= b) by (nonlinear_arith) requires ax * g <= a, g >= 1, q >= 0, ax >= 0, b == a * q + r, r >= 0;
+        assert(q * ax <= b) by (nonlinear_arith) requires 2 * (ax * g) <= a, g >= 1, q >= 0, ax >= 0, b == a * q + r, r >= 0;
         assert(iabs(x) <= ay + q * ax);
-        assert(iabs(x) * g <= b) by (nonlinear_arith)
-            requires iabs(x) <= ay + q * ax, ax * g <= a, ay * g <= r, b == a * q + r, q >= 0, g >= 1, iabs(x) >= 0;
+        assert(iabs(x) * g <= gy + q * gx) by (nonlinear_arith)
+            requires iabs(x) <= ay + q * ax, gx == ax * g, gy == ay * g, g >= 1, iabs(x) >= 0;
+        assert(2 * (q * gx) <= q * a) by (nonlinear_arith) requires 2 * gx <= a, q >= 0;
+        assert(q * a == a * q) by (nonlinear_arith);
+        assert(2 * (iabs(x) * g) <= b);
     }
 }
 
@@ -178,7 +185,261 @@ pub proof fn lemma_ii_bezout_linear(a: int, b: int, g: int, x: int, y: int)
             assert(iabs(y) * g == 0) by (nonlinear_arith) requires y == 0;
         } else {
             let (ax, ay) = (iabs(x), iabs(y));
-            assert(ax <= b && ay <= a) by (nonlinear_arith) requires ax * g <= b, ay * g <= a, g >= 1, ax >= 0, ay >= 0;
+            assert(ax <= b && ay <= a && ax * g <= b && ay * g <= a) by (nonlinear_arith)
+                requires 2 * (ax * g) <= b, 2 * (ay * g) <= a, g >= 1, ax >= 0, ay >= 0;
         }
     }
+}
+
+// ---- lcm and the Chinese remainder theorem ----
+
+/// lcm of two strides as the code computes it: (a / gcd) * b  (0 when a stride is 0)
+pub open spec fn ii_lcm(a: int, b: int) -> int {
+    if a <= 0 || b <= 0 { 0 } else { (a / (spec_gcd(a as nat, b as nat) as int)) * b }
+}
+
+pub proof fn lemma_ii_lcm(sl: int, sr: int)
+    requires sl > 0, sr > 0
+    ensures ({
+        let g = spec_gcd(sl as nat, sr as nat) as int;
+        let l = ii_lcm(sl, sr);
+        &&& 0 < g <= sl && g <= sr
+        &&& sl == g * (sl / g) && sr == g * (sr / g) && sl / g >= 1 && sr / g >= 1
+        &&& l == (sl / g) * sr && l == sl * (sr / g) && g * l == sl * sr
+        &&& l >= sl && l >= sr && l <= sl * sr
+        &&& divides(sl, l) && divides(sr, l) && divides(g, sl) && divides(g, sr)
+    }),
+{
+    let g = spec_gcd(sl as nat, sr as nat) as int;
+    lemma_gcd(sl as nat, sr as nat);
+    lemma_gcd_bound(sl as nat, sr as nat);
+    lemma_ii_gcd_sym(sl as nat, sr as nat);
+    lemma_gcd_bound(sr as nat, sl as nat);
+    assert(g > 0);
+    lemma_divides_witness(g, sl); lemma_divides_witness(g, sr);
+    let (k, n) = (sl / g, sr / g);
+    lemma_div_pos(sl, g); lemma_div_pos(sr, g);
+    assert(k >= 1) by (nonlinear_arith) requires sl == g * k, sl > 0, g > 0, k >= 0;
+    assert(n >= 1) by (nonlinear_arith) requires sr == g * n, sr > 0, g > 0, n >= 0;
+    assert(g <= sl) by (nonlinear_arith) requires sl == g * k, k >= 1, g > 0;
+    assert(g <= sr) by (nonlinear_arith) requires sr == g * n, n >= 1, g > 0;
+    let l = k * sr;
+    assert(l == sl * n) by (nonlinear_arith) requires l == k * sr, sl == g * k, sr == g * n;
+    assert(g * l == sl * sr) by (nonlinear_arith) requires l == k * sr, sl == g * k;
+    assert(l >= sr) by (nonlinear_arith) requires l == k * sr, k >= 1, sr > 0;
+    assert(l >= sl) by (nonlinear_arith) requires l == sl * n, n >= 1, sl > 0;
+    assert(l <= sl * sr) by (nonlinear_arith) requires g * l == sl * sr, g >= 1, l >= 0;
+    lemma_divides_mul(sl, n); lemma_divides_mul(sr, k);
+}
+
+/// a common multiple of both strides is a multiple of their lcm (via Bezout)
+pub proof fn lemma_ii_common_multiple(sl: int, sr: int, li: int, ri: int, x: int)
+    requires sl > 0, sr > 0,
+        spec_gcd(sl as nat, sr as nat) == li * sl + ri * sr,
+        divides(sl, x), divides(sr, x),
+    ensures divides(ii_lcm(sl, sr), x),
+{
+    let g = spec_gcd(sl as nat, sr as nat) as int;
+    let l = ii_lcm(sl, sr);
+    lemma_ii_lcm(sl, sr);
+    lemma_divides_witness(sl, x); lemma_divides_witness(sr, x);
+    let (u, v) = (x / sl, x / sr);
+    let c = li * v + ri * u;
+    // g*x == li*sl*x + ri*sr*x == li*sl*(sr*v) + ri*sr*(sl*u) == (sl*sr) * c == g*l*c
+    assert(g * x == (li * sl) * x + (ri * sr) * x) by (nonlinear_arith) requires g == li * sl + ri * sr;
+    assert((li * sl) * x == (sl * sr) * (li * v)) by (nonlinear_arith) requires x == sr * v;
+    assert((ri * sr) * x == (sl * sr) * (ri * u)) by (nonlinear_arith) requires x == sl * u;
+    assert((sl * sr) * (li * v) + (sl * sr) * (ri * u) == (sl * sr) * c) by (nonlinear_arith) requires c == li * v + ri * u;
+    assert(g * x == g * (l * c)) by (nonlinear_arith) requires g * x == (sl * sr) * c, g * l == sl * sr;
+    assert(x == l * c) by (nonlinear_arith) requires g * x == g * (l * c), g > 0;
+    lemma_divides_mul(l, c);
+}
+
+/// one summand of the CRT formula: t = (d * (xa * ma)) % l vanishes mod ma and is d*g mod mb
+pub proof fn lemma_ii_crt_term(ma: int, mb: int, l: int, g: int, xa: int, xb: int, d: int)
+    requires ma > 0, mb > 0, l > 0, divides(ma, l), divides(mb, l), g == xa * ma + xb * mb,
+    ensures ({
+        let t = ii_rem(d * (xa * ma), l);
+        divides(ma, t) && divides(mb, t - d * g) && -l < t < l
+    }),
+{
+    let p = d * (xa * ma);
+    let t = ii_rem(p, l);
+    lemma_ii_rust_divrem(p, l);
+    assert(p == ma * (d * xa)) by (nonlinear_arith) requires p == d * (xa * ma);
+    lemma_divides_mul(ma, d * xa);
+    lemma_divides_trans(ma, l, p - t);
+    lemma_divides_add(ma, p, p - t);
+    assert(p - (p - t) == t);
+    assert(p - d * g == mb * (-(d * xb))) by (nonlinear_arith) requires p == d * (xa * ma), g == xa * ma + xb * mb;
+    lemma_divides_mul(mb, -(d * xb));
+    lemma_divides_trans(mb, l, p - t);
+    lemma_divides_add(mb, p - t, p - d * g);
+    assert((p - t) - (p - d * g) == d * g - t);
+    lemma_divides_add(mb, d * g - t, d * g - t);
+    assert(-(d * g - t) == t - d * g);
+}
+
+/// the value the code computes (non-negative bases), as a spec expression
+pub open spec fn ii_crt_p1(sl: int, sr: int, br: int, g: int, li: int) -> int {
+    ii_div(ii_rem(br, ii_lcm(sl, sr)), g) * (li * sl)
+}
+pub open spec fn ii_crt_p2(sl: int, sr: int, bl: int, g: int, ri: int) -> int {
+    ii_div(ii_rem(bl, ii_lcm(sl, sr)), g) * (ri * sr)
+}
+pub open spec fn ii_crt_rc0(sl: int, sr: int, bl: int, br: int, g: int, li: int, ri: int) -> int {
+    ii_rem(ii_crt_p1(sl, sr, br, g, li), ii_lcm(sl, sr)) + ii_rem(ii_crt_p2(sl, sr, bl, g, ri), ii_lcm(sl, sr)) + ii_rem(bl, g)
+}
+pub open spec fn ii_crt_rc(sl: int, sr: int, bl: int, br: int, g: int, li: int, ri: int) -> int {
+    ii_rem(ii_rem(ii_crt_rc0(sl, sr, bl, br, g, li, ri), ii_lcm(sl, sr)) + ii_lcm(sl, sr), ii_lcm(sl, sr))
+}
+
+/// magnitude of the two products: no i128 overflow as long as the lcm fits into 64 bits
+pub proof fn lemma_ii_crt_no_overflow(sl: int, sr: int, bl: int, br: int, g: int, li: int, ri: int)
+    requires sl > 0, sr > 0, 0 <= bl < sl, 0 <= br < sr,
+        g == spec_gcd(sl as nat, sr as nat), g == li * sl + ri * sr,
+        ii_bezout_bounds(sl, sr, g, li, ri),
+        ii_lcm(sl, sr) <= u64::MAX,
+    ensures ({
+        let l = ii_lcm(sl, sr);
+        &&& ii_rem(br, l) == br && ii_rem(bl, l) == bl
+        &&& 0 <= ii_div(br, g) <= br && 0 <= ii_div(bl, g) <= bl
+        &&& iabs(li * sl) <= l && iabs(ri * sr) <= l
+        &&& iabs(ii_crt_p1(sl, sr, br, g, li)) <= i128::MAX
+        &&& iabs(ii_crt_p2(sl, sr, bl, g, ri)) <= i128::MAX
+    }),
+{
+    let l = ii_lcm(sl, sr);
+    lemma_ii_lcm(sl, sr);
+    lemma_ii_rust_divrem(br, l); lemma_ii_rust_divrem(bl, l);
+    vstd::arithmetic::div_mod::lemma_small_mod(br as nat, l as nat);
+    vstd::arithmetic::div_mod::lemma_small_mod(bl as nat, l as nat);
+    lemma_ii_rust_divrem(br, g); lemma_ii_rust_divrem(bl, g);
+    let (d1, d2) = (ii_div(br, g), ii_div(bl, g));
+    let (k, n) = (sl / g, sr / g);
+    let m: int = 0x1_0000_0000_0000_0000;
+    assert(l < m);
+    lemma_div_pos(sr, sl);
+    if sr % sl == 0 {
+        // li == 1, ri == 0, g == sl
+        assert(li * sl == sl) by (nonlinear_arith) requires li == 1;
+        assert(ri * sr == 0) by (nonlinear_arith) requires ri == 0;
+        assert(d2 * (ri * sr) == 0) by (nonlinear_arith) requires ri * sr == 0;
+        assert(0 <= d1 * sl <= br) by (nonlinear_arith) requires br == g * d1 + ii_rem(br, g), ii_rem(br, g) >= 0, g == sl, d1 >= 0, sl > 0;
+    } else {
+        let (ax, ay) = (iabs(li), iabs(ri));
+        // 2*|li|*sl <= l, 2*|ri|*sr <= l
+        assert(2 * (ax * sl) <= l) by (nonlinear_arith)
+            requires 2 * (ax * g) <= sr, sl == g * k, l == k * sr, k >= 1, ax >= 0, g > 0;
+        assert(2 * (ay * sr) <= l) by (nonlinear_arith)
+            requires 2 * (ay * g) <= sl, sr == g * n, l == sl * n, n >= 1, ay >= 0, g > 0;
+        assert(iabs(li * sl) == ax * sl) by (nonlinear_arith) requires ax == iabs(li), sl > 0;
+        assert(iabs(ri * sr) == ay * sr) by (nonlinear_arith) requires ay == iabs(ri), sr > 0;
+        let (a1, a2) = (iabs(li * sl), iabs(ri * sr));
+        assert(iabs(d1 * (li * sl)) == d1 * a1) by (nonlinear_arith) requires d1 >= 0, a1 == iabs(li * sl);
+        assert(iabs(d2 * (ri * sr)) == d2 * a2) by (nonlinear_arith) requires d2 >= 0, a2 == iabs(ri * sr);
+        assert(2 * (d1 * a1) <= m * m - 2) by (nonlinear_arith) requires 0 <= d1 < m - 1, 0 <= 2 * a1 <= m - 1, m > 2;
+        assert(2 * (d2 * a2) <= m * m - 2) by (nonlinear_arith) requires 0 <= d2 < m - 1, 0 <= 2 * a2 <= m - 1, m > 2;
+        assert(m * m == 0x1_0000_0000_0000_0000_0000_0000_0000_0000) by (compute);
+    }
+}
+
+/// the computed residue class is the CRT solution: in [0, lcm), congruent to both bases
+/// (so the final self-check of the code always passes)
+pub proof fn lemma_ii_crt(sl: int, sr: int, bl: int, br: int, g: int, li: int, ri: int)
+    requires sl > 0, sr > 0, 0 <= bl < sl, 0 <= br < sr,
+        g == spec_gcd(sl as nat, sr as nat), g == li * sl + ri * sr,
+        ii_rem(bl, g) == ii_rem(br, g),
+    ensures ({
+        let l = ii_lcm(sl, sr);
+        let rc0 = ii_crt_rc0(sl, sr, bl, br, g, li, ri);
+        let rc = ii_crt_rc(sl, sr, bl, br, g, li, ri);
+        &&& -(3 * l) < rc0 < 3 * l && -l < ii_rem(rc0, l) < l
+        &&& 0 <= rc < l
+        &&& ii_rem(l, sl) == 0 && ii_rem(l, sr) == 0
+        &&& divides(sl, bl - rc) && divides(sr, br - rc)
+        &&& ii_rem(bl - rc, sl) == 0 && ii_rem(br - rc, sr) == 0
+    }),
+{
+    let l = ii_lcm(sl, sr);
+    lemma_ii_lcm(sl, sr);
+    lemma_ii_rust_divrem(br, l); lemma_ii_rust_divrem(bl, l);
+    vstd::arithmetic::div_mod::lemma_small_mod(br as nat, l as nat);
+    vstd::arithmetic::div_mod::lemma_small_mod(bl as nat, l as nat);
+    lemma_ii_rust_divrem(br, g); lemma_ii_rust_divrem(bl, g);
+    let (d1, d2) = (ii_div(br, g), ii_div(bl, g));
+    let rho = ii_rem(bl, g);
+    assert(ii_crt_p1(sl, sr, br, g, li) == d1 * (li * sl));
+    assert(ii_crt_p2(sl, sr, bl, g, ri) == d2 * (ri * sr));
+    let t1 = ii_rem(d1 * (li * sl), l);
+    let t2 = ii_rem(d2 * (ri * sr), l);
+    lemma_ii_crt_term(sl, sr, l, g, li, ri, d1);   // sl | t1, sr | t1 - d1*g
+    lemma_ii_crt_term(sr, sl, l, g, ri, li, d2);   // sr | t2, sl | t2 - d2*g
+    let rc0 = t1 + t2 + rho;
+    assert(rc0 == ii_crt_rc0(sl, sr, bl, br, g, li, ri));
+    assert(g * d1 == d1 * g && g * d2 == d2 * g) by (nonlinear_arith);
+    // mod sl: rc0 - bl == t1 + (t2 - d2*g)
+    lemma_divides_add(sl, t1, t2 - d2 * g);
+    assert(t1 + (t2 - d2 * g) == rc0 - bl);
+    // mod sr: rc0 - br == (t1 - d1*g) + t2
+    lemma_divides_add(sr, t1 - d1 * g, t2);
+    assert((t1 - d1 * g) + t2 == rc0 - br);
+    // rc == rc0 mod l
+    lemma_ii_posmod(rc0, l);
+    lemma_ii_rust_divrem(rc0, l);
+    let rc = rc0 % l;
+    assert(rc == ii_crt_rc(sl, sr, bl, br, g, li, ri));
+    lemma_divides_trans(sl, l, rc0 - rc); lemma_divides_trans(sr, l, rc0 - rc);
+    lemma_divides_add(sl, rc0 - rc, rc0 - bl);
+    assert((rc0 - rc) - (rc0 - bl) == bl - rc);
+    lemma_divides_add(sr, rc0 - rc, rc0 - br);
+    assert((rc0 - rc) - (rc0 - br) == br - rc);
+    lemma_ii_rust_divrem(bl - rc, sl); lemma_ii_rust_divrem(br - rc, sr);
+    lemma_ii_rust_divrem(l, sl); lemma_ii_rust_divrem(l, sr);
+}
+
+/// no common member when the bases differ modulo the gcd
+pub proof fn lemma_ii_crt_none(sl: int, sr: int, bl: int, br: int, v: int)
+    requires sl > 0, sr > 0, 0 <= bl, 0 <= br,
+        divides(sl, v - bl), divides(sr, v - br),
+    ensures ({
+        let g = spec_gcd(sl as nat, sr as nat) as int;
+        g > 0 && ii_rem(bl, g) == ii_rem(br, g)
+    }),
+{
+    let g = spec_gcd(sl as nat, sr as nat) as int;
+    lemma_ii_lcm(sl, sr);
+    lemma_divides_trans(g, sl, v - bl); lemma_divides_trans(g, sr, v - br);
+    lemma_divides_add(g, v - br, v - bl);
+    assert((v - br) - (v - bl) == bl - br);
+    lemma_ii_rust_divrem(bl, g); lemma_ii_rust_divrem(br, g);
+    let (r1, r2) = (ii_rem(bl, g), ii_rem(br, g));
+    // r1 - r2 == (bl - br) - (bl - r1) + (br - r2)
+    lemma_divides_add(g, bl - br, bl - r1);
+    lemma_divides_add(g, (bl - br) - (bl - r1), br - r2);
+    assert(((bl - br) - (bl - r1)) + (br - r2) == r1 - r2);
+    lemma_ii_small_multiple(g, r1 - r2);
+}
+
+/// a value in both residue classes lies in the class of the CRT solution modulo the lcm
+pub proof fn lemma_ii_crt_member(sl: int, sr: int, li: int, ri: int, bl: int, br: int, rc: int, v: int)
+    requires sl > 0, sr > 0,
+        spec_gcd(sl as nat, sr as nat) == li * sl + ri * sr,
+        divides(sl, v - bl), divides(sr, v - br),
+        divides(sl, bl - rc), divides(sr, br - rc),
+    ensures divides(ii_lcm(sl, sr), v - rc),
+{
+    lemma_divides_add(sl, v - bl, bl - rc);
+    lemma_divides_add(sr, v - br, br - rc);
+    assert((v - bl) + (bl - rc) == v - rc && (v - br) + (br - rc) == v - rc);
+    lemma_ii_common_multiple(sl, sr, li, ri, v - rc);
+}
+
+/// strides of intervals of at most 32 bit: the lcm always fits into 64 bit
+pub proof fn lemma_ii_lcm_small(sl: int, sr: int)
+    requires 0 < sl < 0x1_0000_0000, 0 < sr < 0x1_0000_0000
+    ensures ii_lcm(sl, sr) <= u64::MAX,
+{
+    lemma_ii_lcm(sl, sr);
+    assert(sl * sr < 0x1_0000_0000 * 0x1_0000_0000) by (nonlinear_arith) requires 0 < sl < 0x1_0000_0000, 0 < sr < 0x1_0000_0000;
 }
